@@ -108,6 +108,7 @@ struct WalkOut {
     std::vector<std::pair<std::string, std::string>> kv; // in walk (key) order
     std::vector<border_node*> borders;                   // all borders, all layers
     std::vector<base_node*> nodes;                       // all nodes
+    std::set<const void*> node_set;
     int max_depth = 0;
     int layers = 0;
     std::string canon;                                   // canonical state string (if requested)
@@ -145,7 +146,7 @@ inline void walk_node(WalkOut& w, base_node* n, base_node* parent_expect, bool i
         werr(w, "null node reached at depth " + std::to_string(depth));
         return;
     }
-    if (std::find(w.nodes.begin(), w.nodes.end(), n) != w.nodes.end()) {
+    if (!w.node_set.insert(n).second) {
         werr(w, "node reachable twice");
         return;
     }
